@@ -12,6 +12,7 @@ import (
 	"math"
 	"os"
 	"os/exec"
+	"path/filepath"
 	"runtime"
 	"runtime/debug"
 	"strconv"
@@ -1121,11 +1122,33 @@ func c09ScaleSub() *engine.Sub {
 	}
 }
 
+// c09HangHandler: for C09 "always terminates" is part of the property, so a case that does not come
+// back is a violation (reported from the watchdog; the process cannot continue past a hung goroutine).
+func c09HangHandler(sub *engine.Sub, caseJSON string, limit time.Duration) {
+	dir := filepath.Join(engine.OutDir(), "replays", "C09")
+	os.MkdirAll(dir, 0o755)
+	path := filepath.Join(dir, "does-not-terminate-"+strings.ReplaceAll(sub.Name, "/", "_")+".json")
+	body := fmt.Sprintf("{\n \"property\": \"C09\",\n \"sub\": %q,\n \"class\": \"does-not-terminate\",\n \"msg\": \"the case did not return within %s; it may depend on the calls that preceded it in this run (re-run the sub-check to reproduce)\",\n \"history_dependent\": true,\n \"case\": %s\n}\n", sub.Name, limit, caseJSON)
+	os.WriteFile(path, []byte(body), 0o644)
+	fmt.Printf("  violation class=does-not-terminate sub=%s: case %s did not return within %s\n", sub.Name, caseJSON, limit)
+	fmt.Printf("VIOLATION property=C09 replay=%s\n", path)
+	os.Exit(1)
+}
+
 func C09() *engine.Check {
+	engine.HangHandler = c09HangHandler
+	subs := []*engine.Sub{c09ShortSub(), c09MutSub(), c09SignedSub(), c09EnvSub(), c09MatchSub(), c09GlobSub(), c09ScaleSub()}
+	for _, s := range subs {
+		if s.Name == "scaling-families-in-isolated-worker" {
+			s.HangLimit = 20 * time.Minute // its inputs run in worker processes with their own deadlines and re-runs
+		} else {
+			s.HangLimit = 60 * time.Second // in-process cases take milliseconds
+		}
+	}
 	return &engine.Check{
 		Property: "C09",
 		Level:    "model_checking",
-		Subs:     []*engine.Sub{c09ShortSub(), c09MutSub(), c09SignedSub(), c09EnvSub(), c09MatchSub(), c09GlobSub(), c09ScaleSub()},
+		Subs:     subs,
 		Assumptions: []string{
 			"'every input' is covered for all inputs up to 2 (quick) / 3 (thorough) bytes, all distance-1 mutants of 14 valid artefacts, a grammar of well-signed malformed payloads and 36 scaling families up to 256 KiB / 4 MiB; no random inputs are used",
 			"memory clause: peak resident set growth of a fresh worker process <= 128 MiB + 1024 x input length; termination clause: 120 s per input (inputs of at most 4 MiB; the slowest conforming family needs < 5 s)",
